@@ -281,6 +281,55 @@ def run(rep, tier):
             if "language" in flds or "lang" in flds:
                 ok = False
     rep.ob("R15.4", "declared-language-after-parse|Operation::parse", ok, "the declared language never selects the parser; it is compared with the parsed command's type afterwards", (opf[0].file if opf else "rs/anda_kip/src/request.rs"))
+    # ------------------------------------------------------------------ R15.5 the budget pre-scan and the lexer agree on comments
+    rep.rule("R15.5", "the nesting-budget pre-scan and the real lexer end a `//` comment at the same characters (otherwise brackets the scan "
+                      "takes for comment text are really parsed, or the reverse)", floor=1)
+    lx = prog.fn("anda_kip::parser::json::skip_ws_and_comments")
+    bs = prog.fn("anda_kip::parser::validate_parser_budget")
+    rep.saw(lx, len(lx.events))
+    rep.saw(bs, len(bs.events))
+    A, unknownA = set(), False
+    finds = [e for e in lx.calls_named(r"^core::str::<impl str>::(find|split_once|find_map|rfind)$")]
+    sw = [e for e in lx.calls_named(r"^core::str::<impl str>::starts_with$") if (core.op_const(e.args[1]) or {}).get("str") == "//"]
+    for e in finds:
+        if not any(lx.dominates(s_.block, e.block) for s_ in sw):
+            continue
+        k = core.op_const(e.args[1])
+        if k is not None and k.get("ty") == "char" and k.get("int") is not None:
+            A.add(int(k["int"]))
+            continue
+        got = False
+        for o in lx.slice_back_op(e.args[1], through=lambda ev: False):
+            if o[0] == "const" and o[1].get("ty") == "char" and o[1].get("int") is not None:
+                A.add(int(o[1]["int"]))
+                got = True
+        if not got:
+            unknownA = True
+    B = set()
+    flag = [l for l in range(len(bs.locals)) if bs.var_name(l) == "in_line_comment"]
+
+    def clears(b):
+        return any(st[0] == "A" and not st[1].get("p") and st[1]["l"] in flag and st[2]["k"] == "use"
+                   and (core.op_const(st[2]["o"]) or {}).get("int") == "0" for st in bs.stmts(b))
+    for b in bs.live_blocks():
+        for st in bs.stmts(b):
+            if st[0] == "A" and st[2]["k"] == "bin" and st[2]["op"] == "Eq":
+                k = core.op_const(st[2]["b"]) or core.op_const(st[2]["a"])
+                if k is None or k.get("ty") != "char":
+                    continue
+                t = bs.term(b)
+                if t["k"] == "switch" and core.op_place(t["o"]) is not None and core.op_place(t["o"]).l == st[1]["l"] and clears(t["else"]):
+                    B.add(int(k["int"]))
+        t = bs.term(b)
+        if t["k"] == "switch" and core.op_place(t["o"]) is not None and bs.locals[core.op_place(t["o"]).l] == "char":
+            for v, tb in t["v"]:
+                if clears(tb):
+                    B.add(int(v))
+    if not flag or not sw:
+        raise CheckerFault("R15.5 anchors missing (in_line_comment flag %r, starts_with(\"//\") %r)" % (flag, sw))
+    rep.ob("R15.5", "comment-end-agreement|skip_ws_and_comments~validate_parser_budget", bool(A) and not unknownA and A == B,
+           "the lexer ends a line comment at characters %s, the budget pre-scan at %s" % (sorted(A) if not unknownA else "?", sorted(B)),
+           (finds[0].where() if finds else lx.file))
     return rep.finish(EXPLAIN)
 
 
